@@ -218,7 +218,13 @@ func genSmallKVs(r *Rng) []KV {
 		return []KV{{[]byte{keyAlphabet[r.Intn(26)]}, nil}}
 	case 2: // ends with a short pair
 		kvs := genKVs(r, 3)
-		kvs = append(kvs, KV{[]byte{'~'}, r.Bytes(r.Intn(2))})
+		last := KV{[]byte{'~'}, r.Bytes(r.Intn(2))}
+		for _, kv := range kvs { // keys stay distinct: a duplicate key is a format violation
+			if string(kv.K) == "~" {
+				return sortKVs(kvs)
+			}
+		}
+		kvs = append(kvs, last)
 		return sortKVs(kvs)
 	default:
 		return genKVs(r, 4)
